@@ -50,6 +50,8 @@ const (
 	okInts8  // ownInts8T
 	okF64
 	okF32
+	okTag  // ownTagT: fields with tag options
+	okTagF // ownTagFT: floats under ,string
 )
 
 type ownVal struct {
@@ -63,6 +65,25 @@ type ownVal struct {
 	s    string
 	xs   []*ownVal
 	strs []string
+}
+
+// struct fields carrying tag options; strs = s, o, y, mk, mv, then p / ps when present (has[0], has[1])
+type ownTagT struct {
+	S  string            `json:"s,string"`
+	I  int64             `json:"i,string"`
+	B  bool              `json:"b,string"`
+	O  string            `json:"o,omitempty"`
+	OI int               `json:"oi,omitempty"`
+	Y  []byte            `json:"y"`
+	M  map[string]string `json:"m"`
+	P  **string          `json:"p"`
+	PS *string           `json:"ps,string"`
+}
+
+type ownTagFT struct {
+	F float64 `json:"f,string"`
+	G float32 `json:"g,string"`
+	U uint8   `json:"u,string,omitempty"`
 }
 
 type ownInts8T struct {
@@ -246,6 +267,41 @@ func (p *ownParser) val() *ownVal {
 		v.b = p.s[p.p] == 't'
 		p.p++
 		return v
+	case 'T':
+		// T <s> <i>; <t|f> <o> <oi>; <y> <mk> <mv> <p|n> <ps|n>
+		p.p++
+		v := &ownVal{k: okTag}
+		v.strs = append(v.strs, p.str())
+		v.i, _ = ownParseInt('d', p.until(';'))
+		v.b = p.s[p.p] == 't'
+		p.p++
+		v.strs = append(v.strs, p.str())
+		oi, _ := ownParseInt('d', p.until(';'))
+		v.is = []int64{oi}
+		v.strs = append(v.strs, p.str(), p.str(), p.str())
+		for k := 0; k < 2; k++ {
+			if p.s[p.p] == 'n' {
+				p.p++
+				v.us = append(v.us, 0)
+				v.strs = append(v.strs, "")
+			} else {
+				v.us = append(v.us, 1)
+				v.strs = append(v.strs, p.str())
+			}
+		}
+		return v
+	case 'W':
+		// W <f64 bits>; <f32 bits>; <u8>;
+		p.p++
+		v := &ownVal{k: okTagF}
+		f, err := strconv.ParseUint(p.until(';'), 16, 64)
+		g, err2 := strconv.ParseUint(p.until(';'), 16, 32)
+		u, err3 := strconv.ParseUint(p.until(';'), 10, 8)
+		if err != nil || err2 != nil || err3 != nil {
+			panic("bad W token")
+		}
+		v.us = []uint64{f, g, u}
+		return v
 	case 'F':
 		p.p++
 		u, err := strconv.ParseUint(p.until(';'), 16, 64)
@@ -344,6 +400,24 @@ func (v *ownVal) goValue() interface{} {
 		return ownTypedSlice(v.w, v.is, v.us)
 	case okInts8:
 		return ownInts8T{int8(v.is[0]), int16(v.is[1]), int32(v.is[2]), v.is[3], uint8(v.us[4]), uint16(v.us[5]), uint32(v.us[6]), v.us[7], v.b}
+	case okTag:
+		t := ownTagT{S: v.strs[0], I: v.i, B: v.b, O: v.strs[1], OI: int(v.is[0]), Y: []byte(v.strs[2]),
+			M: map[string]string{v.strs[3]: v.strs[4]}}
+		if t.Y == nil {
+			t.Y = []byte{}
+		}
+		if v.us[0] == 1 {
+			ps := v.strs[5]
+			pp := &ps
+			t.P = &pp
+		}
+		if v.us[1] == 1 {
+			ps := v.strs[6]
+			t.PS = &ps
+		}
+		return t
+	case okTagF:
+		return ownTagFT{math.Float64frombits(v.us[0]), math.Float32frombits(uint32(v.us[1])), uint8(v.us[2])}
 	case okF64:
 		return math.Float64frombits(v.u)
 	case okF32:
